@@ -629,6 +629,9 @@ def gen(tier, rng):
                             if tier == 'quick' and cs is None and (cnt % 3):
                                 cnt += 1
                                 continue
+                            if tier == 'quick' and len(L) + len(R) >= 5 and (cnt % 2):
+                                cnt += 1          # quick tier: the largest pairs alternate over the chunk sizes
+                                continue
                             yield _mk(how, [True, lu or None if cnt % 2 else lu, True, ru], L, R, cnt, cs,
                                       same_key_name=(cnt % 7 != 3))
                             cnt += 1
@@ -641,6 +644,9 @@ def gen(tier, rng):
                 if tier == 'quick' and (cnt % 2):
                     hs = hs[1:]
                 for h in hs:
+                    if tier == 'quick' and len(L) + len(R) >= 5 and (cnt % 2):
+                        cnt += 1
+                        continue
                     yield _mk(how, _truth(h, L, R), L, R, cnt, None, same_key_name=(cnt % 7 != 3))
                     cnt += 1
     # C. compound keys (pandas path only, with and without ordered hints)
